@@ -107,6 +107,11 @@ func C13() int {
 		dotted = append(dotted, parts)
 	}
 	dotted = append(dotted, []string{"a", "a"}, []string{"", ""}, []string{"", "a", ""}, []string{"db", "system", "views"})
+	// array positions inside paths (digits-only components, leading and not)
+	for _, x := range []string{"items", "sku", "10", "0", "1", "2", "3", "007"} {
+		add(x)
+	}
+	dotted = append(dotted, []string{"items", "1", "sku"}, []string{"items", "2", "sku"}, []string{"a", "0"}, []string{"a", "10", "b", "3"}, []string{"0", "1"}, []string{"items", "007"})
 	var dollar []string
 	for i := 0; i < 5000; i++ {
 		dollar = append(dollar, comps[rng.Intn(len(comps))])
@@ -150,10 +155,21 @@ func C13() int {
 	for i, j := 0, len(rev)-1; i < j; i, j = i+1, j-1 {
 		rev[i], rev[j] = rev[j], rev[i]
 	}
-	sample := names
-	if len(sample) > 40000 {
-		sample = names[:40000]
+	// a sample across all three groups (single components, dotted paths incl. the explicit ones at
+	// the end, '$'-prefixed) for the batches that repeat the calls under other option histories
+	var sampleIdx []int
+	for j := 0; j < nC && j < 25000; j++ {
+		sampleIdx = append(sampleIdx, j)
 	}
+	for j := 0; j < nD; j++ {
+		if j < 12000 || j >= nD-10 {
+			sampleIdx = append(sampleIdx, nC+j)
+		}
+	}
+	for j := 0; j < len(dollar) && j < 3000; j++ {
+		sampleIdx = append(sampleIdx, nC+nD+j)
+	}
+	sample := permuted(sampleIdx)
 
 	var scriptA []sut.AgentCmd
 	type want struct {
@@ -237,7 +253,7 @@ func C13() int {
 			o := strOuts(recs[i])
 			idx := w.ord
 			if idx == nil {
-				idx = order[:len(sample)]
+				idx = sampleIdx
 			}
 			if len(o) != len(idx) {
 				c.Inconclusive(fmt.Sprintf("%s: %d results for %d names (%v)", w.tag, len(o), len(idx), recs[i]["panic"]))
